@@ -52,6 +52,12 @@ type Sim struct {
 	SplitProb float64       // probability a segment is delivered in two pieces
 	Capped    bool
 	lastTid   int
+
+	// ClockOffset is added to the bubble clock when SQLite's 'now' is set before
+	// every step: a scenario can start SQLite's wall clock next to a day/year
+	// boundary or step it (wall-clock jump fault) without simulating the idle
+	// time. Zero = SQLite's clock equals the bubble clock.
+	ClockOffset time.Duration
 }
 
 func New(c *core.Ctx) *Sim {
@@ -124,7 +130,7 @@ func (s *Sim) Step() {
 	}
 	synctest.Wait()
 	s.collect()
-	simclock.Set(time.Now())
+	simclock.Set(time.Now().Add(s.ClockOffset))
 	if s.Net.Trace != nil {
 		if tid := syscall.Gettid(); tid != s.lastTid {
 			s.Net.Trace("driver now on tid +%d", tid-os.Getpid())
